@@ -18,6 +18,7 @@ func (c *FnCtx) call(fr *Frame, st *State, cc *ssa.CallCommon, site ssa.Instruct
 	for i, a := range cc.Args {
 		v := c.val(fr, st, a)
 		args = append(args, v)
+		c.escapeChan(st, v, a.Type())
 		// a package-level regular expression compiled once from a constant pattern (never
 		// reassigned): whatever happened to the heap model since entry, it still is that one
 		if u, ok := a.(*ssa.UnOp); ok && u.Op == token.MUL {
@@ -1096,6 +1097,9 @@ func (c *FnCtx) goStmt(fr *Frame, st *State, x *ssa.Go) {
 	}
 	c.events = append(c.events, "spawn "+name)
 	c.spawns = append(c.spawns, name)
+	for _, a := range x.Call.Args {
+		c.escapeChan(st, c.val(fr, st, a), a.Type())
+	}
 }
 
 // ---------------------------------------------------------------------------------------
